@@ -1,6 +1,7 @@
 package orbitdb
 
 import (
+	"bytes"
 	"context"
 	"encoding/json"
 	"fmt"
@@ -126,6 +127,12 @@ func (o *orbitDBAccessController) CanAppend(entry logac.LogEntry, p identityprov
 	identity := entry.GetIdentity()
 	if identity == nil {
 		return fmt.Errorf("entry has no identity")
+	}
+
+	// the entry must be signed with the key of the identity it names: the log only
+	// verifies the signature against the entry's own key field
+	if keyed, ok := entry.(interface{ GetKey() []byte }); !ok || !bytes.Equal(keyed.GetKey(), identity.PublicKey) {
+		return fmt.Errorf("entry key does not match the public key of its identity")
 	}
 
 	access := append(writeAccess, adminAccess...)
